@@ -238,6 +238,9 @@ type RunResult struct {
 	samples   []querySample
 	solverErr []string
 	timedOut  bool
+	coreHits  int
+	ivalSkips int
+	siteStats map[string]*[3]int
 	crashed   []string
 }
 
@@ -245,9 +248,9 @@ func runJobs(env *Env, ld *Loaded, jobs []*Job, specs map[string]JobSpec) *RunRe
 	q := NewWorkQueue()
 	for _, j := range jobs {
 		j.res = newJobResult()
-		q.Push(WorkItem{j, nil})
+		q.Push(WorkItem{j, nil, nil})
 	}
-	rr := &RunResult{jobs: jobs, funcs: map[string]string{}}
+	rr := &RunResult{jobs: jobs, funcs: map[string]string{}, siteStats: map[string]*[3]int{}}
 	var mu sync.Mutex
 	var wg sync.WaitGroup
 	t0 := time.Now()
@@ -257,10 +260,26 @@ func runJobs(env *Env, ld *Loaded, jobs []*Job, specs map[string]JobSpec) *RunRe
 		go func(w int) {
 			defer wg.Done()
 			tb := NewTB()
-			s := NewSolver([]string{"z3", "-in", "-smt2"}, env.SolverMs)
+			s := NewSolver(primarySolver(), env.SolverMs)
+			s.logic = "QF_BV"
 			s.sampleEvery = 97
 			defer s.Close()
 			ex := &Explorer{tb: tb, s: s, q: q}
+			if os.Getenv("VERIF_STATS") != "" {
+				ex.stats = map[string]*[3]int{}
+				defer func() {
+					mu.Lock()
+					for k, v := range ex.stats {
+						if rr.siteStats[k] == nil {
+							rr.siteStats[k] = &[3]int{}
+						}
+						for i := range v {
+							rr.siteStats[k][i] += v[i]
+						}
+					}
+					mu.Unlock()
+				}()
+			}
 			funcs := map[string]string{}
 			npaths := 0
 			for {
@@ -280,6 +299,7 @@ func runJobs(env *Env, ld *Loaded, jobs []*Job, specs map[string]JobSpec) *RunRe
 				if tb.cnt > 2_000_000 { // bound memory: terms never outlive a path
 					tb = NewTB()
 					ex.tb = tb
+					s.coreCache = map[int][][]int{} // term ids start over
 				}
 				spec := specs[it.job.Entry]
 				budget := spec.Budget
@@ -305,6 +325,8 @@ func runJobs(env *Env, ld *Loaded, jobs []*Job, specs map[string]JobSpec) *RunRe
 				rr.samples = append(rr.samples, s.samples...)
 			}
 			rr.solverErr = append(rr.solverErr, s.errs...)
+			rr.coreHits += s.coreHits
+			rr.ivalSkips += ex.skipped
 			mu.Unlock()
 		}(w)
 	}
@@ -379,6 +401,19 @@ func runPath(env *Env, ld *Loaded, ex *Explorer, it WorkItem, funcs map[string]s
 		in.initPackages(fn.Pkg)
 		in.call(fn, []Value{ex.tb.Const(64, uint64(spec.Cfg))})
 	}()
+	// assertions still pending at the end of the path (or at the panic) are decided now
+	func() {
+		defer func() {
+			if r := recover(); r != nil {
+				if x, ok := r.(abortPath); ok {
+					outcome, msg = "abort", x.why
+					return
+				}
+				panic(r)
+			}
+		}()
+		ex.flush()
+	}()
 	ex.finishPath(outcome, msg, env.Samples)
 }
 
@@ -428,4 +463,13 @@ func sortedFuncs(m map[string]string, onlyRepo bool) []string {
 	}
 	sort.Strings(l)
 	return l
+}
+
+// primarySolver: z3 5.1.0 (z3-new) decides the queries about three times faster than 4.8.12 on this workload;
+// 4.8.12 and cvc5 re-decide a sample of them (solver diff).
+func primarySolver() []string {
+	if os.Getenv("VERIF_SOLVER") == "z3-4.8" {
+		return []string{"/usr/bin/z3", "-in", "-smt2"}
+	}
+	return []string{"z3-new", "-in", "-smt2"}
 }
